@@ -139,6 +139,7 @@ pub fn convert_weak<'gc>(any: AnyGc<'gc>, conv: Conv) -> (AnyWeak<'gc>, Option<S
 pub fn kind_of(any: AnyGc<'_>) -> Kind {
     match canon(any) {
         AnyGc::Node(_) => Kind::Node,
+        AnyGc::Bag(_) => Kind::Bag,
         AnyGc::Field(_) => Kind::Field,
         AnyGc::Raw(_) => Kind::Raw,
         AnyGc::Cell(_) => Kind::Cell,
@@ -159,6 +160,7 @@ pub fn kind_of(any: AnyGc<'_>) -> Kind {
 pub fn stored_id(any: AnyGc<'_>) -> Option<Id> {
     match canon(any) {
         AnyGc::Node(g) => Some(g.borrow().id),
+        AnyGc::Bag(g) => Some(g.borrow().id),
         AnyGc::Field(g) => Some(g.id),
         AnyGc::Raw(g) => Some(g.id),
         AnyGc::Cell(g) => Some(g.get().0),
@@ -262,6 +264,35 @@ pub fn alloc<'gc>(mc: &Mutation<'gc>, kind: Kind, id: Id) -> AnyGc<'gc> {
             let _t = seam::track();
             AnyGc::Swh(GcSliceWithHeaderBuilder::<SwhHead<'gc>, SliceElem<'gc>>::new(len as usize).write_header(h).write_slice_with(mc, |_| Lock::new(None)))
         }
+        Kind::Bag => {
+            let mut hm: HashMap<u8, Edge<'gc>, FixedHasher> = HashMap::default();
+            hm.insert(0, None);
+            let v = RefLock::new(BagBody {
+                id,
+                tok: Tok(id),
+                t1: (None,),
+                t2: (1, None),
+                t3: (None, 2, None),
+                t4: (3, (4, None), 5),
+                arr: [None, None],
+                bx: Box::new(None),
+                rc: std::rc::Rc::new(None),
+                ll: std::collections::LinkedList::from([None]),
+                vd: VecDeque::from([None]),
+                bh: std::collections::BinaryHeap::from([Keyed { k: 0, e: None }]),
+                bm: BTreeMap::from([(0u8, None)]),
+                bk: BTreeMap::from([(Keyed { k: 0, e: None }, 0u8)]),
+                bs: std::collections::BTreeSet::from([Keyed { k: 0, e: None }]),
+                hm,
+                opt: Some(Some(None)),
+                res: Err(None),
+                fp: FaultPoint(id),
+                wt: (6, None),
+                wo: Some(Box::new(None)),
+            });
+            let _t = seam::track();
+            AnyGc::Bag(Gc::new(mc, v))
+        }
         Kind::SetInner | Kind::Lay { .. } | Kind::Built { .. } | Kind::ZstShared => unreachable!("not allocated through access::alloc"),
     }
 }
@@ -279,6 +310,28 @@ pub fn read_strong<'gc>(any: AnyGc<'gc>, k: usize) -> Edge<'gc> {
         AnyGc::Opaque(_) => None,
         AnyGc::ThinSlice(_) | AnyGc::ThinSwh(_) | AnyGc::NodeE(_) | AnyGc::NodeD(_) | AnyGc::NodeM(_) => unreachable!(),
         AnyGc::Node(g) => g.borrow().strong[k],
+        AnyGc::Bag(g) => {
+            let b = g.borrow();
+            match k {
+                0 => b.t1.0,
+                1 => b.t2.1,
+                2 => b.t3.0,
+                3 => b.t4.1.1,
+                4 | 5 => b.arr[k - 4],
+                6 => *b.bx,
+                7 => *b.rc,
+                8 => *b.ll.front().unwrap(),
+                9 => b.vd[0],
+                10 => b.bh.peek().unwrap().e,
+                11 => b.bm[&0],
+                12 => b.bk.keys().next().unwrap().e,
+                13 => b.bs.iter().next().unwrap().e,
+                14 => b.hm[&0],
+                15 => b.opt.unwrap().unwrap(),
+                16 => *b.res.as_ref().unwrap_err(),
+                _ => unreachable!(),
+            }
+        }
         AnyGc::Field(g) => match k {
             0 => g.a.get(),
             1 => *g.b.borrow(),
@@ -308,6 +361,14 @@ pub fn read_strong<'gc>(any: AnyGc<'gc>, k: usize) -> Edge<'gc> {
 pub fn read_weak<'gc>(any: AnyGc<'gc>, k: usize) -> WEdge<'gc> {
     match canon(any) {
         AnyGc::Node(g) => g.borrow().weak[k],
+        AnyGc::Bag(g) => {
+            let b = g.borrow();
+            match k {
+                0 => b.t3.2,
+                1 => b.wt.1,
+                _ => **b.wo.as_ref().unwrap(),
+            }
+        }
         AnyGc::Field(g) => match k {
             0 => g.w.get(),
             _ => g.wv.borrow()[0],
@@ -365,6 +426,49 @@ pub fn write_strong<'gc>(mc: &Mutation<'gc>, any: AnyGc<'gc>, self_id: Id, k: us
                 Route::TryBorrowMut => g.try_borrow_mut(mc).unwrap().strong[k] = v,
                 _ => g.borrow_mut(mc).strong[k] = v,
             }
+            Wrote::Done
+        }
+        AnyGc::Bag(g) => {
+            let mut b = match route {
+                Route::WriteUnlock => Gc::write(mc, g).unlock().borrow_mut(),
+                Route::TryBorrowMut => g.try_borrow_mut(mc).unwrap(),
+                _ => g.borrow_mut(mc),
+            };
+            // container surgery allocates: not the crate's business
+            let _p = seam::pause();
+            match k {
+                0 => b.t1.0 = v,
+                1 => b.t2.1 = v,
+                2 => b.t3.0 = v,
+                3 => b.t4.1.1 = v,
+                4 | 5 => b.arr[k - 4] = v,
+                6 => *b.bx = v,
+                7 => b.rc = std::rc::Rc::new(v),
+                8 => *b.ll.front_mut().unwrap() = v,
+                9 => b.vd[0] = v,
+                10 => {
+                    b.bh.clear();
+                    b.bh.push(Keyed { k: 0, e: v });
+                }
+                11 => {
+                    b.bm.insert(0, v);
+                }
+                12 => {
+                    b.bk.clear();
+                    b.bk.insert(Keyed { k: 0, e: v }, 0);
+                }
+                13 => {
+                    b.bs.clear();
+                    b.bs.insert(Keyed { k: 0, e: v });
+                }
+                14 => {
+                    b.hm.insert(0, v);
+                }
+                15 => b.opt = Some(Some(v)),
+                16 => b.res = Err(v),
+                _ => unreachable!(),
+            }
+            drop(b);
             Wrote::Done
         }
         AnyGc::Field(g) => {
@@ -442,6 +546,21 @@ pub fn write_weak<'gc>(mc: &Mutation<'gc>, any: AnyGc<'gc>, k: usize, route: Rou
             }
             Wrote::Done
         }
+        AnyGc::Bag(g) => {
+            let mut b = match route {
+                Route::WriteUnlock => Gc::write(mc, g).unlock().borrow_mut(),
+                Route::TryBorrowMut => g.try_borrow_mut(mc).unwrap(),
+                _ => g.borrow_mut(mc),
+            };
+            let _p = seam::pause();
+            match k {
+                0 => b.t3.2 = v,
+                1 => b.wt.1 = v,
+                _ => b.wo = Some(Box::new(v)),
+            }
+            drop(b);
+            Wrote::Done
+        }
         AnyGc::Field(g) => {
             let w = Gc::write(mc, g);
             match k {
@@ -493,6 +612,9 @@ pub fn touch<'gc>(mc: &Mutation<'gc>, any: AnyGc<'gc>) {
             w.val.set(w.val.get());
         }
         AnyGc::Node(g) => {
+            let _ = g.borrow_mut(mc);
+        }
+        AnyGc::Bag(g) => {
             let _ = g.borrow_mut(mc);
         }
         AnyGc::Cell(g) => g.set(mc, g.get()),
